@@ -545,6 +545,8 @@ def _pds_to_dict(field_data):
 
         # get the pds length
         pds_field_length = int(field_data[field_pointer+4:field_pointer+7])
+        if pds_field_length < 0:
+            raise ValueError(f'Invalid PDS field length {pds_field_length}')
         LOGGER.debug("pds_field_length=[%i]", pds_field_length)
 
         # get the pds data
